@@ -297,8 +297,38 @@ def case_max(ctx, family, k, n, rseed):
             ctx.judged(("max", family, k, n, m, nplanted), nontrivial=True, sample={"call": label})
 
 
+def case_astronomical(ctx, rseed):
+    """Requests for a handful of clauses / parities out of a universe far beyond any machine number (C(n,k)*2^k above
+    1e308, n up to 2^62): they are satisfiable requests like any other."""
+    import cnfgen.families.randomformulas as rf
+    import cnfgen.families.randomkxor as rx
+    r = ctx.rng("c13astro", rseed)
+    for (k, n, m) in ((1024, 1024, 1), (1024, 1024, 3), (1100, 1100, 2), (600, 1200, 5), (200, 5000, 10), (120, 10 ** 4, 4), (18, 2 ** 62, 3),
+                      (3, 2 ** 40, 5), (40, 2 ** 30, 6), (1, 2 ** 62, 2), (2000, 4000, 1)):
+        seed = r.randint(0, 10 ** 6)
+        label = "RandomKCNF(k=%d,n=%d,m=%d,seed=%d)" % (k, n, m, seed)
+        st, F = ctx.call(rf.RandomKCNF, k, n, m, seed=seed)
+        ctx.count("astronomical_universes")
+        if st == "exc":
+            ctx.violation("randkcnf:%s" % ("refuses-feasible" if isinstance(F, ValueError) else "raises:" + type(F).__name__), "%s raised %r" % (label, F))
+        else:
+            check_kcnf(ctx, F, k, n, m, [], label)
+        ctx.judged(("astro", "kcnf", k, n, m), nontrivial=True, sample={"call": label})
+    for (k, n, m) in ((3, 2 ** 40, 5), (2, 2 ** 62, 3), (3, 10 ** 6, 7), (1, 2 ** 61, 2), (4, 2 ** 33, 3)):
+        seed = r.randint(0, 10 ** 6)
+        label = "RandomKXOR(k=%d,n=%d,m=%d,seed=%d)" % (k, n, m, seed)
+        st, F = ctx.call(rx.RandomKXOR, k, n, m, seed=seed)
+        ctx.count("astronomical_universes")
+        if st == "exc":
+            ctx.violation("randkxor:%s" % ("refuses-feasible" if isinstance(F, ValueError) else "raises:" + type(F).__name__), "%s raised %r" % (label, F))
+        elif len(F) != m * 2 ** (k - 1) or F.number_of_variables() != n or any(len({abs(l) for l in c}) != k for c in F):
+            ctx.violation("randkxor:shape", "%s: %d clauses / %d variables" % (label, len(F), F.number_of_variables()))
+        ctx.judged(("astro", "kxor", k, n, m), nontrivial=True, sample={"call": label})
+
+
 def workload(tier, seed):
     import math
+    yield "astronomical", {"rseed": seed}
     for family in ("kcnf", "kxor"):
         # clauses produced at the maximum; the k-CNF ones are inspected one by one, the parities only counted
         limit = {"kcnf": 12000, "kxor": 450000} if tier == "quick" else {"kcnf": 150000, "kxor": 3000000}
